@@ -21,13 +21,12 @@ def setup_subject():
     return _st
 
 
-def scanner_gir(seed, idx):
-    """a GIR produced on the spot by the real scanner pipeline from one of the generators"""
+def scanner_library(seed, idx, k=None):
+    """-> (kind, library dict for vt.scan.scan) from one of the generators"""
     from . import c01, c02, c03, c13
-    st = setup_subject()
-    scan = st['scan']
     rng = core.rng_for(seed, 'c06lib', idx)
-    k = idx % 5
+    if k is None:
+        k = idx % 5
     if k == 0:
         hdr = apigen.Source('/src/foo.h')
         src = apigen.Source('/src/foo.c')
@@ -57,7 +56,14 @@ def scanner_gir(seed, idx):
     else:
         l = c13.gen_library(seed, idx)
         kind, lib = 'c13', apigen.library(headers=[('/src/foo.h', l['header'])], includes=['GLib-2.0'])
-    r = scan.scan(lib)
+    return kind, lib
+
+
+def scanner_gir(seed, idx):
+    """a GIR produced on the spot by the real scanner pipeline from one of the generators"""
+    st = setup_subject()
+    kind, lib = scanner_library(seed, idx)
+    r = st['scan'].scan(lib)
     return kind, r['gir']
 
 
